@@ -6,7 +6,9 @@ PROPS = {
         modules=["specs.tabparser"],
         bounded=[("bounded.c05", "run")],
         assumes=["A1", "A7", "A8", "A9", "A10", "A13"],
-        trusted=["parse_to_tree's cursor loop (nested odict insertion) is outside the proved set: bounded only",
+        trusted=["parse_to_tree is proved (cursor idiom: the `cur` alias of a node of the result tree is modelled as (root, path) with "
+                 "sidecar tget/tset, 7 lemmas); the equivalence of the column-stack reference with the 'nearest preceding line with "
+                 "smaller indentation' wording is bounded only",
                  "splitter (CommonFormatter.split = str.split) is opaque"],
     ),
     "C18": dict(
@@ -29,7 +31,8 @@ PROPS = {
         modules=["specs.rbcommon", "specs.formatter"],
         bounded=[("bounded.c09", "run")],
         assumes=["A1", "A6", "A8", "A9", "A13"],
-        trusted=["formatter flattening (blocks_and_context, cmd_paths, _indent_blocks) and apply_deploy_rulebook: bounded only",
+        trusted=["cmd_paths and _indent_blocks are proved relative to the assumed contract of blocks_and_context (a well-bracketed token "
+                 "stream); blocks_and_context itself, block_exit strings and apply_deploy_rulebook: bounded only",
                  "hardware flags are booleans with the hierarchy axiom as precondition of common.apply"],
     ),
     "C14": dict(
@@ -61,8 +64,10 @@ PROPS = {
         modules=["specs.patching", "specs.aclmatch"],
         bounded=[("bounded.c06", "run")],
         assumes=["A2", "A6", "A9", "A12"],
-        trusted=["match_row_to_acl (regex matching, prio/specificity sort, children-rule merge) is an assumed contract: "
-                 "opaque function macl; compared with an independent reference matcher in the bounded layer",
+        trusted=["apply_acl / apply_acl_diff use match_row_to_acl through an assumed contract (opaque function macl); of the matcher, "
+                 "_select_match (prio / specificity choice, children-rule merge) and match_row_to_acl's dispatch are proved, "
+                 "_find_acl_matches (regex matching) and merge_dicts are assumed; compared with an independent reference matcher in "
+                 "the bounded layer",
                  "compile_acl_text / _merge_toplevel: bounded only"],
     ),
     "C07": dict(
@@ -82,7 +87,8 @@ PROPS = {
         bounded=[("bounded.c10", "run")],
         assumes=["A2", "A6", "A9"],
         trusted=["merge_dicts, TreeGenerator block bookkeeping, _run_partial_generator: bounded only",
-                 "match_row_to_acl exclusive branch: assumed contract (macl_conflict opaque)"],
+                 "match_row_to_acl is proved to raise AclNotExclusiveError iff two generators' rules match the row (exclusive mode) "
+                 "relative to the assumed contracts of _find_acl_matches (regex matching) and merge_dicts"],
     ),
     "C13": dict(
         level="exploration",
@@ -117,8 +123,8 @@ PROPS = {
         modules=["specs.tabparser"],
         bounded=[("bounded.c04", "run")],
         assumes=["A1", "A7", "A8", "A9", "A13"],
-        trusted=["the join side (blocks_and_context, _indent_blocks) and the brace / RouterOS / Cisco / Huawei split functions are bounded only; "
-                 "the indentation parse side is the proved C05 chain"],
+        trusted=["the join side: _indent_blocks is proved relative to the assumed blocks_and_context contract; the brace / RouterOS / Cisco / "
+                 "Huawei split functions are bounded only; the indentation parse side incl. parse_to_tree is the proved C05 chain"],
     ),
     "C11": dict(
         level="exploration",
@@ -135,8 +141,8 @@ PROPS = {
         bounded=[("bounded.c16", "run")],
         assumes=["A5", "A9", "A12"],
         trusted=["effect inference is syntactic (upper bound of what a logic function reads)",
-                 "make_pre / make_patch are not under a discharged contract: the reduction lemmas L-C16a/b are not proved; the front ends "
-                 "are compared by the bounded layer"],
+                 "make_pre is proved against its grouping spec; make_patch is not under a discharged contract and the reduction lemmas "
+                 "L-C16a/b are not proved: the two front ends are compared by the bounded layer"],
     ),
     "C17": dict(
         level="exploration",
@@ -151,8 +157,9 @@ PROPS = {
         modules=["specs.rbcommon", "specs.patching", "specs.formatter", "specs.makepre", "specs.aclmatch"],
         bounded=[("bounded.c01", "run")],
         assumes=["A2", "A3", "A6", "A7", "A8", "A9"],
-        trusted=["make_diff / make_pre / make_patch / Orderer.get_order are not under discharged contracts: the composition lemma L-C01 is not "
-                 "proved; convergence is decided by the bounded layer with an executable device simulator written from the statement",
+        trusted=["make_pre is proved equal to its bucket-grouping spec (diffs without %multiline rules); make_diff / apply_diff_rb / "
+                 "make_patch / Orderer.get_order are not under discharged contracts: the composition lemma L-C01 is not proved; "
+                 "convergence is decided by the bounded layer with an executable device simulator written from the statement",
                  "blocks_and_context (token stream producer) is an assumed contract (well-bracketed stream)"],
     ),
     "C02": dict(
